@@ -230,25 +230,30 @@ Section Oracle.
                    if ok then ids else ids ++ expected_pre_ids rest
     end.
 
-  Definition is_lambda_id (k : Z) : bool :=
-    existsb (fun i => Z.eqb (cid i) k && clambda i)
-            (List.concat pre ++ post ++ match k_invs c with Some l => l | None => [] end).
+  (** the violated condition is evaluated once more for its message exactly when it is a lambda and the
+      library builds the message (no error given, or an exception class) *)
+  Definition reeval_expected (k : contract) : bool :=
+    clambda k && match cerror k with ENone | EClass _ => true | _ => false end.
 
-  (** ids of the condition evaluations of a role, the immediate re-evaluation of a lambda for its message dropped
-      (an immediate repetition of a condition that is not a lambda is a second evaluation: the same inherited
-      condition at the head of two groups of a diamond) *)
-  Fixpoint cond_ids (r : role) (t : list event) (prev : option Z) : list Z :=
-    match t with
+  (** the precondition evaluations in full: each group tried up to its first falsy condition, that one once more
+      when its message is built from it, until one group holds *)
+  Fixpoint expected_pre_evals (gs : list (list contract)) : list Z :=
+    match gs with
     | [] => []
-    | EvCond r' k _ _ :: rest =>
-        if role_eqb r r'
-        then (match prev with
-              | Some k0 => if Z.eqb k0 k && is_lambda_id k then cond_ids r rest None else k :: cond_ids r rest (Some k)
-              | None => k :: cond_ids r rest (Some k)
-              end)
-        else cond_ids r rest None
-    | _ :: rest => cond_ids r rest None
+    | g :: rest =>
+        let (ids, ok) := evaluated_prefix (holds m U RPre false resolved st0) g in
+        if ok then ids
+        else ids
+             ++ match find (fun k => negb (holds m U RPre false resolved st0 k)) g with
+                | Some k => if reeval_expected k then [cid k] else []
+                | None => []
+                end
+             ++ expected_pre_evals rest
     end.
+
+  (** ids of the condition evaluations of a role, as they happened *)
+  Definition cond_ids (r : role) (t : list event) : list Z :=
+    flat_map (fun e => match e with EvCond r' k _ _ => if role_eqb r r' then [k] else [] | _ => [] end) t.
 
   Fixpoint zlist_eqb (a b : list Z) : bool :=
     match a, b with
@@ -280,7 +285,7 @@ Section Oracle.
                all_contracts
     (* groups in order, each up to its first falsy condition, until one holds *)
     && (if benign_to_body && invs_hold_ invs_before st0 && has_checker
-        then zlist_eqb (cond_ids RPre t None) (expected_pre_ids pre)
+        then zlist_eqb (cond_ids RPre t) (expected_pre_evals pre)
         else true)
     && outcome_as_expected r.
 
